@@ -34,6 +34,7 @@ MsmDevs(l0, e) ==
        IN  (IF ~IValid(e.out) THEN <<Dev(l0, "C09", <<"result is not a valid element", e.kind, e.n, e.tasks, e.mont>>, sig("invalid"))>>
             ELSE One(EEq(IAff(e.out), want), l0, "C09", <<"result differs from sum s_i P_i", e.kind, e.n, e.tasks, e.mont, e.small, e.pcls, e.scls, IF Has(e, "c") THEN e.c ELSE 0>>, sig("value"))) \o
            (IF Has(e, "inputs_unchanged") THEN One(e.inputs_unchanged, l0, "C13", "MultiExp modified its input slices", sig("inputs")) ELSE <<>>) \o
+           (IF Has(e, "tails_unchanged") THEN One(e.tails_unchanged, l0, "C13", "MultiExp wrote into the spare capacity of a caller's slice", sig("capacity")) ELSE <<>>) \o
            (IF Has(e, "aff_err") THEN One(~e.aff_err /\ EEq(<<e.aff[1], e.aff[2]>>, want), l0, "C09", <<"MultiExpAffine differs from sum s_i P_i", e.n, e.tasks>>, sig("affine")) ELSE <<>>) \o
            \* the decision MultiExp reported through the hook against the implementation-shaped chooser model (MSMImpl!SplitLoop,
            \* the model MC_MsmChooser checks for every n <= 8192): a mismatch means the model is stale, not that the property fails
